@@ -147,6 +147,15 @@ def cases(tier, seed):
     for size in range(1, 4 if quick else 5):
         for b in gen_scope.seqs(size, 2, gen_scope.C04_ATOMS, None, {}):
             yield {"kind": "stmts_goto", "files": [("stmts.pn", gen_prog.to_source(gen_scope.program_with_main(gen_scope.renumber_bumps(b))))]}
+    from . import c05
+    for size in range(1, 5 if quick else 6):
+        for b in gen_scope.seqs(size, 2, c05.ATOMS_A, None, {}):
+            yield {"kind": "stmts_scope", "files": [("stmts.pn", gen_prog.to_source(gen_scope.program_with_main(
+                gen_scope.renumber_bumps(b))))]}
+    for k, b in enumerate(c05.multigoto_bodies()):
+        if quick and k % 4:
+            continue
+        yield {"kind": "stmts_multigoto", "files": [("stmts.pn", gen_prog.to_source(gen_scope.program_with_main(b)))]}
     # 11. dependency graphs of constants and structures in random declaration order, half of them with a cycle of length 1-5
     for i in range(2000 if quick else 40000):
         g_rng = common.rng_for(seed, PROP, "depgraph", i)
